@@ -309,10 +309,35 @@ def _unroll_literal_loops(tree: ast.AST) -> None:
                     if isinstance(lp, ast.For) and isinstance(lp.iter, ast.Name) and lp.iter.id == tg_.id:
                         tables[id(lp)] = x.value
 
+    # module-level tuples / lists of literals bound once (dispatch tables)
+    mod_tables: Dict[str, ast.AST] = {}
+    if isinstance(tree, ast.Module):
+        cnt: Dict[str, int] = {}
+        for x in ast.walk(tree):
+            if isinstance(x, ast.Name) and isinstance(x.ctx, ast.Store):
+                cnt[x.id] = cnt.get(x.id, 0) + 1
+        for st in tree.body:
+            v_ = st.value if isinstance(st, (ast.Assign, ast.AnnAssign)) else None
+            t_ = (st.targets[0] if isinstance(st, ast.Assign) and len(st.targets) == 1 else getattr(st, "target", None)) if v_ is not None else None
+            if isinstance(t_, ast.Name) and isinstance(v_, (ast.Tuple, ast.List)) and cnt.get(t_.id) == 1:
+                mod_tables[t_.id] = v_
+
     class T(ast.NodeTransformer):
         def visit_For(self, n):
             self.generic_visit(n)
             it = tables.get(id(n), n.iter)
+            if isinstance(it, ast.Name) and it.id in mod_tables:
+                it = mod_tables[it.id]
+            # the search idiom `for k, v in TABLE: if TEST: break  [else: DEFAULT]`: a chain of tests, the loop variables keeping the
+            # values of the first row that matched
+            if isinstance(it, (ast.Tuple, ast.List)) and 1 <= len(it.elts) <= 8 and len(n.body) == 1 and isinstance(n.body[0], ast.If) and not n.body[0].orelse \
+                    and len(n.body[0].body) == 1 and isinstance(n.body[0].body[0], ast.Break) and not any(isinstance(e, ast.Starred) for e in it.elts):
+                chain = list(n.orelse) if n.orelse else [ast.copy_location(ast.Pass(), n)]
+                for e in reversed(it.elts):
+                    bind = ast.copy_location(ast.Assign(targets=[_copy.deepcopy(n.target)], value=_copy.deepcopy(e)), n)
+                    test = ast.copy_location(ast.If(test=_copy.deepcopy(n.body[0].test), body=[ast.copy_location(ast.Pass(), n)], orelse=chain), n)
+                    chain = [bind, test]
+                return chain
             if not (isinstance(it, (ast.Tuple, ast.List)) and 1 <= len(it.elts) <= 8 and not n.orelse and not any(isinstance(e, ast.Starred) for e in it.elts)):
                 return n
             if any(isinstance(x, (ast.Break, ast.Continue, ast.FunctionDef, ast.Lambda, ast.Yield, ast.YieldFrom)) for b in n.body for x in ast.walk(b)):
@@ -887,6 +912,10 @@ class Program:
                         base_m = b.methods[name]
                         break
                 if base_m is None or base_m.qualname in known or self.is_stub(base_m):
+                    continue
+                # constructors and anything that says `super()` are left where they are: inside a copy on C, `super()` would start
+                # at C instead of at the base the code was written for
+                if name.startswith("__") or any(isinstance(x, ast.Name) and x.id == "super" for x in ast.walk(base_m.node)):
                     continue
                 node = _copy.deepcopy(base_m.node)
                 fi = FuncInfo(name, base_m.module, node, cls=ci, parent=None, decorators=self._decorators(node))
